@@ -81,4 +81,13 @@ Fixpoint m_nothing_after_term (seen : bool) (ev : list (nat * nat)) : bool :=
 Definition spec_meta_c05 (c : mcase) : bool :=
   Nat.eqb (mc_terms c) 1 && m_nothing_after_term false (mc_events c).
 
+(* C02 for a meta-process: what the behaviour handled are distinct messages, each one pushed by a sender
+   of the scenario (nothing handled twice, nothing handled that was never sent) *)
+Fixpoint nl_nodup (l : list nat) : bool :=
+  match l with [] => true | x :: t => negb (existsb (Nat.eqb x) t) && nl_nodup t end.
+Definition pushed_ids (c : mcase) : list nat :=
+  flat_map (fun p => match p with C_push m => [mm_id m] | _ => [] end) (mc_threads c).
+Definition spec_meta_c02 (c : mcase) : bool :=
+  nl_nodup (mc_handled c) && forallb (fun i => existsb (Nat.eqb i) (pushed_ids c)) (mc_handled c).
+
 Definition premise_meta (c : mcase) : bool := negb (Nat.eqb (length (mc_handled c)) 0).
